@@ -625,6 +625,15 @@ func TestC08(t *testing.T) {
 				a := sp.assignment(i)
 				return gen.Valid{Ver: vi, S: spec.Canon(v, a), A: a, Layout: "canonical"}
 			}, nil, checkCanonical)
+			ws := newWindowSpace(vi, 8)
+			Enum(h, "valid", ws.size(), func(i int) gen.Valid {
+				a := ws.assignment(i)
+				return gen.Valid{Ver: vi, S: spec.Canon(v, a), A: a, Layout: "canonical"}
+			}, nil, checkCanonical)
+			if !h.replaying() {
+				h.R.AddExact(int64(ws.size()), 0)
+				h.R.Count(fmt.Sprintf("v%s exhaustive: every window of 8 consecutive metrics x all value combinations x 3 backgrounds (canonical input)", v.Name), int64(ws.size()))
+			}
 			if !h.replaying() {
 				h.R.AddExact(int64(sp.size()), 0)
 				h.R.Count(fmt.Sprintf("v%s exhaustive: every combination of the first %d metrics (canonical input; fixed point and reparse)", v.Name, k), int64(sp.size()))
